@@ -620,9 +620,10 @@ def pf_lit(p):
         eig = "(EigKron %s)" % nlist(p["kron"])
     cm = "(Some %d)" % p["cm_root"] if p["cm_root"] is not None else "None"
     dg = "None" if p.get("deleg") is None else "(Some %s)" % common.coq_bool(p["deleg"])
-    return "(pf %s %s %s %s %s %s %s %s %s)" % (td, nlist(p["td_kids"]), common.coq_bool(p["chol_ignore"]), eig, cm,
-                                                common.coq_bool(p["precond"]), common.coq_bool(p["sum"]),
-                                                common.coq_bool(p["iqld_to"]), dg)
+    return "(pf %s %s %s %s %s %s %s %s %s %s %s %s)" % (
+        td, nlist(p["td_kids"]), common.coq_bool(p["chol_ignore"]), eig, cm, common.coq_bool(p["precond"]),
+        common.coq_bool(p["sum"]), common.coq_bool(p["iqld_to"]), dg, common.coq_bool(p.get("q_norhs", False)),
+        common.coq_bool(p.get("q_nologdet", False)), common.coq_bool(p.get("q_lanczos1", False)))
 
 
 def st_lit(s):
